@@ -1,8 +1,33 @@
 #!/usr/bin/env python3
-"""Prints the markdown table of seeded changes (DESIGN.md 12.8) from /verif/seeded/*/meta.json."""
-import glob, json, os
-print("| seeded change | property | what it does | needs | caught by (signatures) |\n|---|---|---|---|---|")
-for m in sorted(glob.glob(os.path.join(os.path.dirname(os.path.abspath(__file__)), "seeded", "*", "meta.json"))):
+"""Markdown table of seeded changes (DESIGN.md 12.8) from /verif/seeded/*/meta.json.
+
+tools_table.py            prints the table
+tools_table.py --write    replaces the text between the SEEDED-TABLE markers of DESIGN.md with it
+"""
+import glob, json, os, sys
+
+ROOT = os.path.dirname(os.path.abspath(__file__))
+rows = ["| seeded change | property | what it does | needs | caught by (signatures) |", "|---|---|---|---|---|"]
+n = caught_n = 0
+for m in sorted(glob.glob(os.path.join(ROOT, "seeded", "*", "meta.json"))):
     d = json.load(open(m)); name = os.path.basename(os.path.dirname(m)); res = d["verified"]["results"]
     caught = [f"{c}: {', '.join(r['signatures'][:2])}" for c, r in res.items() if r["exit"] == 1]
-    print(f"| {name} | {d['property']} | {d['summary'][:150].replace('|','/')} | {d['needs'][:150].replace('|','/')} | {'; '.join(caught) if caught else '**missed**'} |")
+    if d.get("expected") == "neutralised":
+        status = "*neutralised* - " + d.get("note", "")
+    else:
+        n += 1
+        caught_n += 1 if caught else 0
+        status = "; ".join(caught) if caught else "**missed**" + (" - " + d["note"] if d.get("note") else "")
+    rows.append(f"| {name} | {d['property']} | {d['summary'][:150].replace('|','/')} | {d['needs'][:150].replace('|','/')} | {status.replace('|','/')} |")
+rows.append("")
+rows.append(f"{n} seeded changes that break their property on the current tree, {caught_n} caught.")
+text = "\n".join(rows)
+if "--write" in sys.argv:
+    p = os.path.join(ROOT, "DESIGN.md")
+    s = open(p).read()
+    a, b = "<!-- SEEDED-TABLE-BEGIN -->", "<!-- SEEDED-TABLE-END -->"
+    i, j = s.index(a) + len(a), s.index(b)
+    open(p, "w").write(s[:i] + "\n" + text + "\n" + s[j:])
+    print(f"DESIGN.md table rewritten: {n} changes, {caught_n} caught")
+else:
+    print(text)
